@@ -21,25 +21,37 @@ _space_counter = itertools.count()
 
 
 class Space:
-    """an index space: identity, symbolic row count, whether labels == positions (RangeIndex)"""
+    """an index space.  pos_id identifies the *positional* layout (which rows, in which order); label_id identifies the
+    index labels.  A boolean filter creates new positions but inherits labels; reset_index(drop=True) keeps the
+    positions and makes labels equal to positions (RangeIndex)."""
 
-    def __init__(self, n=None, is_range=True, parent=None, tag=""):
-        self.id = next(_space_counter)
+    def __init__(self, n=None, parent=None, tag="", pos_id=None, label_id=None):
         cx = ctx()
+        self.pos_id = pos_id if pos_id is not None else next(_space_counter)
+        self.label_id = label_id if label_id is not None else self.pos_id
         self.n = n if n is not None else SV(cx.fresh(f"N{tag}", "Int"))
         cx.assume(to_z3(self.n) >= 0)
-        self.is_range = is_range
-        self.parent = parent  # the space this one was filtered from (labels are inherited)
-        self.label_space = self if is_range else (parent.label_space if parent is not None else self)
+        self.parent = parent
+
+    @property
+    def is_range(self):
+        return self.label_id == self.pos_id
 
     def __repr__(self):
-        return f"Space#{self.id}"
+        return f"Space(pos={self.pos_id},labels={self.label_id})"
 
 
-def _same_space(a, b, what):
+def _same_space(a, b, what, labels=False):
     if a is b:
         return
-    ctx().oblige(f"frame.index-space", z3.BoolVal(False), kind="frame",
+    if labels:
+        if a.label_id == b.label_id and a.pos_id == b.pos_id:
+            return
+        if a.label_id == b.label_id:
+            raise Unsupported(f"{what}: label alignment between a table and a filtered version of it")
+    elif a.pos_id == b.pos_id:
+        return
+    ctx().oblige("frame.index-space", z3.BoolVal(False), kind="frame",
                  detail=f"{what}: operands live in different index spaces ({a} vs {b}); positions/labels of one are used on the other")
     raise Unsupported(f"{what}: different index spaces")
 
@@ -222,14 +234,12 @@ def _count(space, present):
 def _reset_space(space):
     if space.is_range:
         return space
-    sp = Space(n=space.n, is_range=True, tag="r")
-    sp.reset_of = space
-    return sp
+    return Space(n=space.n, parent=space, pos_id=space.pos_id, label_id=space.pos_id)
 
 
 def _filter_space(space, mask_true=False):
     cx = ctx()
-    sp = Space(is_range=False, parent=space, tag="f")
+    sp = Space(parent=space, tag="f", label_id=space.label_id)
     cx.assume(to_z3(sp.n) <= to_z3(space.n))
     return sp
 
@@ -505,7 +515,7 @@ class SiteList(_Generic):
     def add(self, cond):
         self.member = z3.Or(self.member, cond)
     def select(self, f):
-        _same_space(f.space if f.space.is_range else f.space, self.space, "positional selection with loop indices")
+        _same_space(f.space, self.space, "positional selection (iloc) with indices collected in a loop over another table")
         sp = _filter_space(f.space)
         return GFrame(f.cols, f.row, sp, z3.And(f.present, self.member), perm=f.perm)
 
@@ -609,8 +619,7 @@ class GFrame(_Generic):
         """value to be written into `ncols` columns of the generic row -> list of per-column values"""
         import numpy as np
         if isinstance(v, GVec):
-            _same_space(self.space.label_space if v.kind == "series" else self.space,
-                        v.space.label_space if v.kind == "series" else v.space, what)
+            _same_space(self.space, v.space, what, labels=(v.kind == "series"))
             return [v.val] * ncols
         if isinstance(v, RowArr):
             _same_space(self.space, v.space, what)
@@ -618,7 +627,7 @@ class GFrame(_Generic):
                 raise ModelRaise("ValueError", f"shape mismatch: {v.k} columns into {ncols}")
             return list(v.vals)
         if isinstance(v, GFrame):
-            _same_space(self.space.label_space, v.space.label_space, what)
+            _same_space(self.space, v.space, what, labels=True)
             if len(v.cols) != ncols:
                 raise ModelRaise("ValueError", "shape mismatch")
             return [v.row[c] for c in v.cols]
@@ -682,6 +691,23 @@ class GFrame(_Generic):
                 self.row[kk] = vv
             return
         raise Unsupported("frame setitem")
+
+    def _arith(self, o, f, rev=False):
+        a = self.to_numpy()
+        if isinstance(o, GFrame):
+            if list(o.cols) != list(self.cols):
+                raise Unsupported("arithmetic between frames with different columns")
+            o = o.to_numpy()
+        r = a._bin(o, f, rev)
+        return GFrame(self.cols, dict(zip(self.cols, r.vals)), self.space, self.present)
+    def __add__(self, o): return self._arith(o, lambda a, b: a + b)
+    def __radd__(self, o): return self._arith(o, lambda a, b: a + b, True)
+    def __sub__(self, o): return self._arith(o, lambda a, b: a - b)
+    def __rsub__(self, o): return self._arith(o, lambda a, b: a - b, True)
+    def __mul__(self, o): return self._arith(o, lambda a, b: a * b)
+    def __rmul__(self, o): return self._arith(o, lambda a, b: a * b, True)
+    def __truediv__(self, o): return self._arith(o, lambda a, b: a / b)
+    def __neg__(self): return GFrame(self.cols, {c: -v for c, v in self.row.items()}, self.space, self.present)
 
     def apply(self, f, axis=0, **kw):
         if axis != 1:
